@@ -277,15 +277,18 @@ def site_key(rec, xsl=None, mode="single"):
     return "%s@%s" % (oc, "<".join(norm_frames(sig, 2)))
 
 
+HANDLER_SKIP = ("XalanVector::", "XalanList::", "XalanMap::", "XalanDeque::", "std::")
+
+
 def handler_key(hs):
-    return "handler@" + "<".join(norm_frames(hs[6:], 2))
+    """census key of an allocation made inside a catch handler: the frames that are not vector/list/map internals
+    (the string class is kept: a string built inside a handler is exactly what the census is meant to see)"""
+    frames = [f for f in hs[6:].split("<") if not f.startswith(HANDLER_SKIP)]
+    return "handler@" + "<".join(frames[:4])
 
 
 def handler_known(hs, sites):
-    """an allocation made inside a catch handler is in the census when one of its frames is a function of the
-    census (`handlerfn@<name>` lines: the error-message formatting called from XalanTransformer's handlers)"""
-    fns = set(k[len("handlerfn@"):] for k in sites if k.startswith("handlerfn@"))
-    return any(f in fns for f in hs[6:].split("<"))
+    return handler_key(hs) in sites
 
 
 def load_sites():
